@@ -8,6 +8,9 @@ R30b in FromEngine.run_stopped, the function returns early when no run is active
 R30c who-may-call: store_recent_run and create_plot_log are called only from the run-boundary
      handlers; in run_started the store call sits on the run-id-mismatch branch only.
 R30d EngineData.reset_run clears _run_data and has_run tests exactly that field.
+R30e has_run() is also the duplicate test after a reconnect: the registration path restores the stored run
+     whenever a run id is stored - not narrowed by any further condition - and under the stored id (the
+     reconnect-restore clauses of C28, shared).
 Decides the pairing structure; database behaviour and message arrival order are outside.
 """
 from __future__ import annotations
@@ -41,6 +44,9 @@ def run(ctx) -> None:
     ctx.rule("R30b", "run_stopped: early return without run; store_recent_run always followed by reset_run")
     ctx.rule("R30c", "who-may-call store_recent_run / create_plot_log")
     ctx.rule("R30d", "reset_run clears the field has_run tests")
+    ctx.rule("R30e", "a reconnecting engine's stored run is restored whenever a run id is stored (has_run() is the duplicate test)")
+    from .C28 import restore_rules
+    restore_rules(ctx, "R30e")
 
     # ---- R30a
     g = cfg_of(started)
